@@ -298,7 +298,7 @@ fn fuzz_stage(cfg: &RunCfg, st: &mut Stats) -> (Value, Vec<Violation>) {
     if !fuzz_dir.join("Cargo.toml").exists() {
         return skip("fuzz package missing".into());
     }
-    let runs: u64 = std::env::var("VERIF_FUZZ_RUNS").ok().and_then(|s| s.parse().ok()).unwrap_or(600_000);
+    let runs: u64 = std::env::var("VERIF_FUZZ_RUNS").ok().and_then(|s| s.parse().ok()).unwrap_or(1_500_000);
     let workers = 8usize;
     let target_dir = fuzz_dir.join("target");
     let build = Command::new("cargo")
@@ -443,7 +443,7 @@ schedule, server bytes).",
     ],
     randoms: &[RandomDef {
         name: "mutants",
-        cases: |t: Tier| t.pick(200_000, 8_000_000),
+        cases: |t: Tier| t.pick(200_000, 30_000_000),
         tape_len: 500,
         exec: None,
     }],
